@@ -119,8 +119,10 @@ public:
 
   shared_ptr &operator=(shared_ptr &&other) noexcept
   {
+    // Take the value first: other may be *this or be owned by the object managed by *this.
+    shared_ptr tmp{std::move(other)};
     wrapper().~shared_ptr_wrapper();
-    other.wrapper().MoveTo(buffer_);
+    tmp.wrapper().MoveTo(buffer_);
     return *this;
   }
 
@@ -132,8 +134,10 @@ public:
 
   shared_ptr &operator=(const shared_ptr &other) noexcept
   {
+    // Copy first: other may be *this or be owned by the object managed by *this.
+    shared_ptr tmp{other};
     wrapper().~shared_ptr_wrapper();
-    other.wrapper().CopyTo(buffer_);
+    tmp.wrapper().MoveTo(buffer_);
     return *this;
   }
 
